@@ -41,8 +41,6 @@ TRUSTED_DATA = {
         ('the underlying distribution has a monotone cdf, so right > left cumulative (documented as a validity, not memory-safety, requirement)', 'stream::model::quantize::LeakilyQuantizedDistribution'),
     ('stream::model::quantize::LeakilyQuantizedDistributionIter', 'next'):
         ('the underlying distribution has a monotone cdf, so right > left cumulative', 'stream::model::quantize::LeakilyQuantizedDistribution'),
-    ('stream::model::uniform::UniformModel', 'new'):
-        ('(2^P - range)/range + 1 is non-zero for 1 < range <= 2^P (constructor arithmetic)', 'stream::model::uniform::UniformModel'),
     ('stream::model::uniform::UniformModel', 'left_cumulative_and_probability'):
         ('last bin width 2^P - last_symbol * probability_per_bin is non-zero (constructor arithmetic)', 'stream::model::uniform::UniformModel'),
     ('stream::model::uniform::UniformModel', 'quantile_function'):
@@ -157,6 +155,22 @@ def try_nonzero_local(F, res, i, e):
         ke = pow2.width_exp(k)
         return lambda E: ke is not None and pow2.exp_cmp(E, ke) == 0
 
+    # (2^P - r) / r + 1 with r >= 2: the quotient is below half the range of the type, so adding one cannot wrap to zero
+    if x[0] == 'bin' and x[1] == 'Add' and one(x[3] if not one(x[2]) else x[2]):
+        q = x[2] if one(x[3]) else x[3]
+        while q[0] == 'cast':
+            q = q[2]
+        if q[0] == 'bin' and q[1] == 'Div':
+            A, R = q[2], q[3]
+            while R[0] == 'cast':
+                R = R[2]
+            if A[0] == 'bin' and A[1] == 'Sub.w' and A[2][0] == 'call' and str(A[2][1]).endswith('wrapping_pow2') and A[2][2] == (('c', 'PRECISION'),):
+                RA = A[3]
+                while RA[0] == 'cast':
+                    RA = RA[2]
+                two_or_more = has_pred(lambda t, v: t[0] == 'bin' and t[1] == 'Lt' and sym.is_int(t[2]) and t[2][1] >= 1 and (t[3] == R or sym.contains(R, lambda y: y == t[3])) and v == 1)
+                if RA == R and two_or_more:
+                    return '`(2^PRECISION - r) / r + 1` with r >= 2: the quotient is below 2^(PRECISION-1), so `+ 1` cannot wrap to zero'
     # argument itself asserted > 1 / != 0
     if has_pred(lambda t, v: t[0] == 'bin' and t[1] == 'Lt' and sym.is_int(t[2]) and t[2][1] >= 0 and t[3] == x and v == 1):
         return 'dominating assertion `%s > const`' % sym.show(x)[:40]
@@ -205,6 +219,34 @@ def _div_axioms(d, terms, nonempty):
                     d.assume_le(x, x[2], strict=True)
 
 
+def _drop_wrapping_guards(preds):
+    """A guard such as `cdf.get(index + 1)` being Some tells `index + 1 < len` only if `index + 1` did not wrap (release
+    builds do not check; `index` may be usize::MAX when it comes from the caller).  Such a predicate is kept as a fact only
+    if the *other* predicates already bound the operand by a length (then the sum stays below isize::MAX + c)."""
+    untrusted = lambda x: isinstance(x, tuple) and x and (x[0] == 'arg' or (x[0] == 'in' and isinstance(x[1][0], int) and x[1][0] >= 2))
+
+    def risky_sums(t):
+        out = []
+        for x in sym.subterms(t):
+            if isinstance(x, tuple) and x and x[0] == 'bin' and x[1] == 'Add':
+                for a, c in ((x[2], x[3]), (x[3], x[2])):
+                    if sym.is_int(c) and c[1] > 0 and sym.contains(a, untrusted):
+                        out.append(a)
+        return out
+    plain = [p for p in preds if not risky_sums(p[0])]
+    if len(plain) == len(preds):
+        return preds
+    d0 = dbmmod.DBM()
+    dbmmod.harvest(d0, plain)
+    lens = {x for t, v, b in preds for x in sym.subterms(t) if isinstance(x, tuple) and x and x[0] == 'len'}
+    keep = list(plain)
+    for p in preds:
+        ops = risky_sums(p[0])
+        if ops and all(any(d0.entails_le(a, L) for L in lens) for a in ops):
+            keep.append(p)
+    return keep
+
+
 def try_bound(F, res, i, e, assume_nonempty=False):
     """BOUND: get_unchecked(slice, idx | ..end). Returns reason or None."""
     if len(e['args_val']) != 2:
@@ -212,6 +254,7 @@ def try_bound(F, res, i, e, assume_nonempty=False):
     sl = e['args_val'][0]
     idx = rules.inline_pure(F, e['args_val'][1])
     preds = [(rules.inline_pure(F, t), v, b) for t, v, b in res.preds[:rules.preds_before(res, i)]]
+    preds = _drop_wrapping_guards(preds)
     ln = sym.mk_len(sl)
     d = dbmmod.DBM()
     if assume_nonempty:
